@@ -746,6 +746,16 @@ fn render(m: &Model) -> GenCase {
             if !expected.contains(&kind) {
                 iter_extra = true;
             }
+            if !expected.contains(&kind) && kind != 0 {
+                // into_iterator.md: the reference forms exist for the kinds the attribute lists ("You can pick any
+                // combination of `owned`, `ref` and `ref_mut`"); one that is not listed is unrequested extra API. (The owned
+                // form next to a lone reference kind is the recorded deviation and not judged.)
+                run.push_str(&format!(
+                    "    o.fail(\"IntoIterator for {}S exists although `{}` is not listed\", \"no such impl\", \"generated\");\n",
+                    ["", "&", "&mut "][kind],
+                    ["owned", "ref", "ref_mut"][kind]
+                ));
+            }
             match kind {
                 0 => run.push_str(&format!(
                     "    {{\n        let got: Vec<_> = <SC as IntoIterator>::into_iter(mk()).collect();\n        let exp: Vec<_> = <{t} as IntoIterator>::into_iter(mk().{fk}).collect();\n        o.eq(\"owned iteration yields the elements of the selected field's own into_iter() in the same order\", &format!(\"{{exp:?}}\"), &format!(\"{{got:?}}\"));\n        o.check(\"owned iteration is not empty\", got.len() == 3);\n        forms.push(format!(\"{{got:?}}\"));\n    }}\n"
@@ -979,7 +989,7 @@ pub fn prop() -> DiceProp {
         classify,
         rule: "tuple / named struct with 1..4 fields (65 % of the neighbours repeat the previous field's type; types `Own<A>`, `Own<B>`, `Own<T>`, `Vec<A>`, `Box<Own<A>>`, `&'static Own<A>`, a bare parameter `V`, projections `Q::A` / `<Q as Tr>::A`, `OwnL<'a>`, `OwnN<N>`, `OwnG<[u8; N]>` (const parameter only as an array length), `&'a mut Own<A>`, fillers; the struct's lifetime / type / const parameters as the fields need them, optionally with inline bounds or a where-clause) deriving a subset of Deref(+DerefMut), Index(+IndexMut), IntoIterator, AsRef, AsMut, each with its own selected field expressed by `#[attr]` on it or `#[attr(ignore)]` on the others (AsRef/AsMut: marked fields, skip style), `forward` on field or struct, type lists containing the field's own type verbatim / through an alias / through another path and foreign types, owned/ref/ref_mut; oracle: (address, size) of what the derived impl returns == the selected field's own storage (no forward; listed type == field type) resp. == what `<FieldTy as Trait>::method(&s.field)` returns (forward, index, listed foreign type), element addresses/values and order for the three iteration forms, writes through the mutable forms visible in the field; user impls that collide (E0119) with an impl the derive must not generate (AsRef/AsMut of un-indicated / skipped fields, owned IntoIterator under a field-level `ref, ref_mut`); `Own`'s own impls answer from a second allocation so the two expectations never coincide; non-trivial = two fields of equal type, or forward, or a type list; distinct by program text".into(),
         assumptions: vec![
-            "IntoIterator forms that are not listed in the attribute but present in the expansion (e.g. `owned` next to a lone `ref`) are checked too, their existence is not asserted; the absence of `owned` is asserted only for a field-level `ref, ref_mut` (tests/into_iterator.rs `Numbers3`)".into(),
+            "a reference form of IntoIterator (`&S`, `&mut S`) that the attribute does not list is a violation; the *owned* form next to reference kinds (e.g. `owned` next to a lone `ref`) is checked when present but its existence is not judged, its absence is asserted only for a field-level `ref, ref_mut` (tests/into_iterator.rs `Numbers3`)".into(),
             "absence probes for AsRef/AsMut are emitted only where no generated impl can unify with the probe (no `forward`, no type parameter in a selected field's type)".into(),
             "AVOID_ASSOC_SHORTHAND_FOREIGN_LIST / AVOID_ITER_OWNED_ABSENCE_AFTER_IGNORED_FIELD: two reported deviations are kept out of the generated domain until repaired (see the constants)".into(),
         ],
